@@ -7,6 +7,7 @@ import (
 	"github.com/zmap/zcrypto/encoding/asn1"
 	"github.com/zmap/zcrypto/x509"
 	"github.com/zmap/zcrypto/x509/pkix"
+	"github.com/zmap/zlint/v3/lint"
 	"github.com/zmap/zlint/v3/util"
 )
 
@@ -84,6 +85,50 @@ func genScope(out *Output, rng *Rng) {
 			out.Violate("C04|tls-scope:"+zc.Class, fmt.Sprintf("%s lists EKUs %v (+%d unknown) and is treated as in TLS scope = %v", zc.File, c.ExtKeyUsage, len(c.UnknownExtKeyUsage), got),
 				map[string]interface{}{"file": zc.File, "der": hexs(zc.DER)}, want, got)
 		}
+	}
+	// every way of obtaining a lint applies the same scope gate: the deprecated registry-level lookups (ByName / BySource,
+	// which hand out the older Lint type) against the per-kind lookup, on certificates inside and outside each scope
+	{
+		g := lint.GlobalRegistry()
+		var gated []*lint.CertificateLint
+		for _, l := range g.CertificateLints().Lints() {
+			if l.Source == lint.CABFBaselineRequirements || l.Source == lint.CABFSMIMEBaselineRequirements || l.Source == lint.CABFCSBaselineRequirements {
+				gated = append(gated, l)
+			}
+		}
+		zoo := certZoo()
+		stepL, stepC := len(gated)/30+1, len(zoo)/40+1
+		if tier() == "thorough" {
+			stepL, stepC = 1, len(zoo)/200+1
+		}
+		legacy := 0
+		for li := 0; li < len(gated); li += stepL {
+			l := gated[li]
+			lg := g.ByName(l.Name)
+			if lg == nil {
+				out.Violate("C04|legacy-lookup-missing:"+l.Name, "the registry-level ByName does not return the certificate lint "+l.Name, nil, "a lint", "nil")
+				continue
+			}
+			for ci := li % stepC; ci < len(zoo); ci += stepC {
+				c := zoo[ci].Cert
+				var a, b *lint.LintResult
+				func() {
+					defer func() { recover() }()
+					a = l.Execute(c, lint.NewEmptyConfig())
+				}()
+				func() {
+					defer func() { recover() }()
+					b = lg.Execute(c, lint.NewEmptyConfig())
+				}()
+				legacy++
+				if a != nil && b != nil && a.Status != b.Status {
+					out.Violate("C04|legacy-path-differs:"+l.Name, fmt.Sprintf("%s (source %s) reports %s on %s when run through the registry-level ByName (older Lint type) and %s through CertificateLints().ByName: the scope gate depends on how the lint was obtained",
+						l.Name, l.Source, b.Status, zoo[ci].File, a.Status), map[string]interface{}{"file": zoo[ci].File, "der": hexs(zoo[ci].DER), "lint": l.Name}, a.Status.String(), b.Status.String())
+					break
+				}
+			}
+		}
+		out.Stats["legacy_path_comparisons"] = legacy
 	}
 	ekuSets := [][]x509.ExtKeyUsage{nil, {x509.ExtKeyUsageAny}, {x509.ExtKeyUsageServerAuth}, {x509.ExtKeyUsageClientAuth},
 		{x509.ExtKeyUsageEmailProtection}, {x509.ExtKeyUsageCodeSigning}, {x509.ExtKeyUsageClientAuth, x509.ExtKeyUsageEmailProtection},
